@@ -9,6 +9,7 @@ LEMMAS = {}         # name -> Lemma (registration order preserved)
 ASSUMED = {}        # name -> (formula, note)   axioms that are NOT proved (listed in evidence)
 FIELDS = {}         # 'Class.attr' -> Ty
 GHOSTS = {}         # ghost variable -> z3 sort
+SCRATCH_GHOSTS = []  # ghosts that are never part of a frame
 
 
 def load():
@@ -29,3 +30,4 @@ def load():
             ASSUMED[name] = val
         FIELDS.update(getattr(mod, 'FIELDS', {}))
         GHOSTS.update(getattr(mod, 'GHOSTS', {}))
+        SCRATCH_GHOSTS.extend(getattr(mod, 'SCRATCH_GHOSTS', ()))
